@@ -778,23 +778,12 @@ func vC15NameCase(tr *vC15Trace, r *rand.Rand) {
 func vC15Steps(rr dns.RR) (string, bool) {
 	b := func(x []byte) string { return "SBytes " + vc15gen.VC15CoqBytes(string(x)) }
 	nameStep := func(n string, c bool) string { return fmt.Sprintf("SName %s %s", vC15CoqName(n), vC15Bool(c)) }
+	if term, ok := vC15Typed(rr); ok {
+		return term, true
+	}
 	switch v := rr.(type) {
-	case *dns.A:
-		switch {
-		case len(v.A) == 0:
-			return "[]", true
-		case v.A.To4() != nil:
-			return "[" + b(v.A.To4()) + "]", true
-		case len(v.A) == 16:
-			return "[SSkip 4]", true
-		}
-	case *dns.AAAA:
-		switch len(v.AAAA) {
-		case 0:
-			return "[]", true
-		case 16:
-			return "[" + b(v.AAAA) + "]", true
-		}
+	case *dns.A, *dns.AAAA, *dns.L32, *dns.LOC, *dns.NSEC3, *dns.NSEC3PARAM, *dns.SVCB, *dns.HTTPS, *dns.IPSECKEY, *dns.AMTRELAY:
+		return "", false // a typed layout exists but this value is outside it
 	case *dns.NS:
 		return "[" + nameStep(v.Ns, true) + "]", true
 	case *dns.CNAME:
@@ -905,7 +894,7 @@ func vC15Steps(rr dns.RR) (string, bool) {
 		}
 		return "[" + nameStep(v.NextDomain, false) + ";" + b(bm) + "]", true
 	}
-	return "", false
+	return vC15TagWalk(rr)
 }
 
 func vC15U32s(vs ...uint32) []byte {
@@ -1101,6 +1090,20 @@ func vC15ConcreteCase(tr *vC15Trace, r *rand.Rand) {
 			r.Read(d)
 			return &dns.NULL{Hdr: h, Data: string(d)}
 		}
+		if r.Intn(3) == 0 {
+			// any registered record type with fields randomised from the library's struct tags, as
+			// far as the step model expresses the value drawn (typed layouts first, tag walk else)
+			for try := 0; try < 30; try++ {
+				rr := vc15gen.VC15LibRR(r, 0)
+				if _, isOpt := rr.(*dns.OPT); isOpt {
+					continue
+				}
+				rr.Header().Name = pick()
+				if _, ok := vC15Steps(rr); ok {
+					return rr
+				}
+			}
+		}
 		if r.Intn(6) != 0 {
 			return vC15ConcreteMore(r, h, pick)
 		}
@@ -1160,7 +1163,7 @@ func vC15ConcreteCase(tr *vC15Trace, r *rand.Rand) {
 				kind = "KOpt"
 			}
 			h := rr.Header()
-			parts = append(parts, fmt.Sprintf("R %s %s %d %d %d %d %d %s", vC15CoqName(h.Name), kind, sh.PtrOf[i], h.Rrtype, h.Class, h.Ttl, h.Rdlength, steps))
+			parts = append(parts, fmt.Sprintf("R %s %s %d %d %d %d %d %s", vC15CoqName(h.Name), kind, sh.PtrOf[i], h.Rrtype, h.Class, h.Ttl, h.Rdlength, "("+steps+")"))
 		}
 		return "[" + strings.Join(parts, ";") + "]"
 	}
@@ -1179,9 +1182,12 @@ func vC15ConcreteCase(tr *vC15Trace, r *rand.Rand) {
 			"go_fail": "driver: the concrete generator produced a record vC15Steps cannot decompose"})
 		return
 	}
+	probe := *m
+	probe.Compress = false
+	ulen := probe.Len() // what TryPack's size probe sees
 	line := map[string]any{
-		"coq": fmt.Sprintf("CaseConcrete %s %s [%s] %s %s %s %s %s %s", vc15gen.VC15CoqHeader(m), vC15Bool(m.Compress), strings.Join(qs, ";"),
-			secA, secN, secE, vC15Bool(handled), vC15Bool(werr == nil), bytesCoq),
+		"coq": fmt.Sprintf("CaseConcrete %s %s [%s] %s %s %s %s %s %s %d", vc15gen.VC15CoqHeader(m), vC15Bool(m.Compress), strings.Join(qs, ";"),
+			secA, secN, secE, vC15Bool(handled), vC15Bool(werr == nil), bytesCoq, ulen),
 		"k":          fmt.Sprintf("concrete/handled=%v/lib=%v", handled, werr == nil),
 		"desc":       map[string]any{"rcode": m.Rcode, "compress": m.Compress, "sections": []int{len(m.Question), na, nn, len(m.Extra)}, "len": len(want), "liberr": vC15ErrStr(werr), "types": vC15Types(recs)},
 		"nontrivial": handled && len(recs) >= 2,
